@@ -143,6 +143,9 @@ class SbxRun:
         tracer = self.cfg.get('tracer', 'none')
         if tracer != 'none':
             self.sandbox.tracer_style = tracer
+        if self.cfg.get('allow_print'):
+            # print() is allowed to reach the real console as well: pedal then captures through PrintingStringIO
+            self.sandbox.allow_function('print')
         if 'max_temp' in self.cfg:
             self.sandbox.MAXIMUM_TEMPORARY_LENGTH = self.cfg['max_temp']
         MONITOR.configure(student_files=self.student_files, instructor_files=[INSTRUCTOR_FILE],
